@@ -569,6 +569,10 @@ func raceSummary(report string) string {
 // builds at different GOMAXPROCS; the event log and outcome digests
 // must hash identically.
 func determinismSpot(prop, tier string, seed int64, n int, bin, raceBin, work string) (bool, string) {
+	return determinismN(prop, tier, seed, n, bin, raceBin, work, false)
+}
+
+func determinismN(prop, tier string, seed int64, n int, bin, raceBin, work string, full bool) (bool, string) {
 	type cfg struct {
 		bin  string
 		gmp  string
@@ -577,6 +581,12 @@ func determinismSpot(prop, tier string, seed int64, n int, bin, raceBin, work st
 	cfgs := []cfg{{bin, "1", "plain/GOMAXPROCS=1"}, {bin, "16", "plain/GOMAXPROCS=16"}}
 	if raceBin != "" {
 		cfgs = append(cfgs, cfg{raceBin, "4", "race/GOMAXPROCS=4"})
+	}
+	if full {
+		cfgs = append(cfgs, cfg{bin, "4", "plain/GOMAXPROCS=4"})
+		if raceBin != "" {
+			cfgs = append(cfgs, cfg{raceBin, "1", "race/GOMAXPROCS=1"}, cfg{raceBin, "16", "race/GOMAXPROCS=16"})
+		}
 	}
 	outs := make([]string, len(cfgs))
 	var wg sync.WaitGroup
@@ -713,13 +723,13 @@ func cmdDeterminism(args []string) {
 	for _, prop := range []string{"C11", "C12", "C13", "C15", "C16"} {
 		per := 25
 		for off := 0; off < *seeds; off += per {
-			ok, detail := determinismSpot(prop, "quick", *seed+int64(off)-7777, per, *bin, *raceBin, *work)
+			ok, detail := determinismN(prop, "quick", *seed+int64(off)-7777, per, *bin, *raceBin, *work, true)
 			if !ok {
 				bad++
 				fmt.Printf("DIVERGENCE %s seeds %d..: %s\n", prop, *seed+int64(off), detail)
 			}
 		}
-		fmt.Printf("%s: %d seeds checked\n", prop, *seeds)
+		fmt.Printf("%s: %d seeds x 6 processes (plain and race builds at GOMAXPROCS 1, 4, 16) checked\n", prop, *seeds)
 	}
 	if bad > 0 {
 		os.Exit(2)
